@@ -25,6 +25,9 @@ type possible struct {
 	times  []int64
 	// arrived since the previous build while definitely absent before (a first arrival that must be reported)
 	mustReport bool
+	// recorded and not yet covered by a build: "every packet recorded since the previous feedback is reported by the next one" has no
+	// exception for age, so the 500 ms history rule can only take arrivals that a feedback has covered already
+	unreported bool
 }
 
 type model struct {
@@ -60,7 +63,7 @@ func (m *model) record(seq uint16, t int64) int64 {
 			p.absent = true
 		}
 		for _, pt := range p.times {
-			if pt <= t-historyUS {
+			if pt <= t-historyUS && !p.unreported {
 				p.absent = true
 			}
 		}
@@ -89,6 +92,7 @@ func (m *model) record(seq uint16, t int64) int64 {
 		p.absent = false
 		p.times = []int64{t}
 		p.mustReport = true
+		p.unreported = true
 	case p.absent:
 		// it was possibly forgotten: if so this arrival is now the first one in the history
 		p.times = append(p.times, t)
@@ -99,6 +103,7 @@ func (m *model) record(seq uint16, t int64) int64 {
 	// a definite state cannot be "must report" if it may have been dropped on arrival
 	if p.absent {
 		p.mustReport = false
+		p.unreported = false
 	}
 
 	return s
@@ -254,6 +259,7 @@ func (m *model) checkBuild(pkts []rtcp.Packet) error {
 			missing = append(missing, s)
 		}
 		p.mustReport = false
+		p.unreported = false
 	}
 	m.sinceBuild = map[int64]*possible{}
 	if len(missing) > 0 {
